@@ -161,124 +161,168 @@ def simple_word(rng):
     return rng.pick(["a", "b", "x", "y", "1", "42", "this", "true"])
 
 
+PATS = [["pvariant", "A", ["ptuple", ["pid", "v"]]], ["pvariant", "B", ["ptuple", "_"]], ["pvariant", "C"], "_"]
+
+
 def gen_tree(rng, depth, ext=False):
-    """random expression tree; ext=True also uses postfix chains, calls, lambdas and the opaque
-    if / match / block forms (precedence classes 0/1/10/11/12)"""
+    """random expression tree; ext=True also uses member accesses (with and without type arguments),
+    calls, tuples, blocks, if-else, match and lambdas with full sub-expressions in every position"""
+    sub = lambda: gen_tree(rng, depth - 1, ext)
     if depth <= 0 or rng.chance(1, 5):
-        if ext and rng.chance(1, 4):
-            k = rng.below(3)
-            if k == 0:
-                return ["if", simple_word(rng), ["block", ["final", simple_word(rng)]], ["block", ["final", simple_word(rng)]]]
-            if k == 1:
-                return ["match", simple_word(rng), ["case", ["pvariant", "A", ["ptuple", ["pid", "v"]]], simple_word(rng)],
-                        ["case", ["pvariant", "B", ["ptuple", "_"]], simple_word(rng)]]
-            return ["block", ["final", simple_word(rng)]]
         return gen_atom(rng)
-    if ext and rng.chance(1, 4):
-        k = rng.below(3)
+    if ext and rng.chance(2, 5):
+        k = rng.below(8)
         if k == 0:
-            return [".", gen_tree(rng, depth - 1, ext), rng.pick(NAMES)]
+            return [".", sub(), rng.pick(NAMES)] + ([["targs", rng.pick(["int", ["tid", "Foo"]])]] if rng.chance(1, 4) else [])
         if k == 1:
-            return ["call", gen_tree(rng, depth - 1, ext)] + [simple_word(rng) for _ in range(rng.below(3))]
-        return ["lambda", ["params"] + [[x] for x in ["p", "q"][:rng.below(3)]], gen_tree(rng, depth - 1, ext)]
+            return ["call", sub()] + [sub() for _ in range(rng.below(4))]
+        if k == 2:
+            return ["lambda", ["params"] + [[x] for x in ["p", "q"][:rng.below(3)]], sub()]
+        if k == 3:
+            return ["tuple"] + [sub() for _ in range(rng.range(2, 3))]
+        if k == 4:
+            return ["block", ["final", sub()]]
+        if k == 5:
+            return ["if", sub(), ["block", ["final", sub()]], ["block", ["final", sub()]]]
+        if k == 6:
+            n = rng.range(1, 3)
+            return ["match", sub()] + [["case", PATS[i] if i < 3 and rng.chance(3, 4) else rng.pick(PATS), sub()] for i in range(n)]
+        return [".", ["call", sub()], rng.pick(NAMES)]
     if rng.chance(1, 6):
-        return [rng.pick(["!", "neg"]), gen_tree(rng, depth - 1, ext)]
-    return [rng.pick(OPS), gen_tree(rng, depth - 1, ext), gen_tree(rng, depth - 1, ext)]
+        return [rng.pick(["!", "neg"]), sub()]
+    return [rng.pick(OPS), sub(), sub()]
 
 
 def head(t):
     return t[0] if not isinstance(t, str) and t and isinstance(t[0], str) else ""
 
 
+EXT_HEADS = (".", "call", "lambda", "if", "match", "block", "tuple")
+
+
 def is_ext(t):
     if isinstance(t, str):
         return False
-    return head(t) in (".", "call", "lambda", "if", "match", "block") or any(is_ext(t[i]) for i in kids(t))
+    return head(t) in EXT_HEADS or any(is_ext(k) for k in get_kids(t))
 
 
-def kids(t):
-    """indices of the expression children of a node"""
+def kid_paths(t):
+    """paths (index tuples) of the expression children of a node"""
     h = head(t)
     if h in OPS and len(t) == 3:
-        return [1, 2]
-    if h in ("!", "neg", ".", "call"):
-        return [1]
+        return [(1,), (2,)]
+    if h in ("!", "neg", "."):
+        return [(1,)]
+    if h in ("call", "tuple"):
+        return [(i,) for i in range(1, len(t))]
     if h == "lambda":
-        return [2]
+        return [(2,)]
+    if h == "block":
+        return [(1, 1)]
+    if h == "if":
+        return [(1,), (2, 1, 1), (3, 1, 1)]
+    if h == "match":
+        return [(1,)] + [(i, 2) for i in range(2, len(t))]
     return []
 
 
-def render_opaque(t):
+def get_path(t, path):
+    for i in path:
+        t = t[i]
+    return t
+
+
+def set_path(t, path, new):
+    if not path:
+        return new
+    t = list(t)
+    t[path[0]] = set_path(t[path[0]], path[1:], new)
+    return t
+
+
+def get_kids(t):
+    return [get_path(t, p) for p in kid_paths(t)]
+
+
+def render_pat(p):
+    if p == "_":
+        return "_"
+    if len(p) == 2:
+        return p[1]
+    v = p[2][1]
+    return f"{p[1]}({v if isinstance(v, str) else v[1]})"
+
+
+def render_type(t):
+    return t if isinstance(t, str) else t[1]
+
+
+def render_any(t, rng, operand, inner):
+    """shared renderer: `operand(x)` renders a sub-expression in operand position, `inner(x)` one in a
+    delimited position (argument, element, branch, body)"""
     h = head(t)
-    if h == "if":
-        return f"if {t[1]} {{ {t[2][1][1]} }} else {{ {t[3][1][1]} }}"
-    if h == "match":
-        cs = []
-        for c in t[2:]:
-            pat = c[1]
-            v = pat[2][1]
-            cs.append(f"{pat[1]}({v if isinstance(v, str) else v[1]}) -> {c[2]}")
-        return f"match {t[1]} {{ " + ", ".join(cs) + " }"
+    if isinstance(t, str):
+        return t
+    if h in ("!", "neg"):
+        return ("!" if h == "!" else "-") + ("" if rng and rng.chance(1, 2) else " ") + operand(t[1], "unary")
+    if h in OPS and len(t) == 3:
+        return operand(t[1], ("l", h)) + " " + h + " " + operand(t[2], ("r", h))
+    if h == ".":
+        return operand(t[1], "post") + "." + t[2] + (f"<{render_type(t[3][1])}>" if len(t) == 4 else "")
+    if h == "call":
+        return operand(t[1], "post") + "(" + ", ".join(inner(a) for a in t[2:]) + ")"
+    if h == "tuple":
+        return "(" + ", ".join(inner(a) for a in t[1:]) + ")"
+    if h == "lambda":
+        return "(" + ", ".join(p[0] for p in t[1][1:]) + ") -> " + inner(t[2])
     if h == "block":
-        return f"{{ {t[1][1]} }}"
+        return "{ " + inner(t[1][1]) + " }"
+    if h == "if":
+        return f"if {inner(t[1])} {{ {inner(t[2][1][1])} }} else {{ {inner(t[3][1][1])} }}"
+    if h == "match":
+        return f"match {inner(t[1])} {{ " + ", ".join(f"{render_pat(c[1])} -> {inner(c[2])}" for c in t[2:]) + " }"
     raise ValueError("cannot render " + str(t))
 
 
 def render(t, rng=None):
     """source text with explicit parentheses forcing exactly this tree (plus random redundant ones)"""
-    h = head(t)
-    if isinstance(t, str):
-        s = t
-    elif h in ("!", "neg"):
-        s = ("!" if h == "!" else "-") + ("" if rng and rng.chance(1, 2) else " ") + wrap(t[1], rng)
-    elif h in OPS and len(t) == 3:
-        s = wrap(t[1], rng) + " " + h + " " + wrap(t[2], rng)
-    elif h == ".":
-        s = wrap(t[1], rng) + "." + t[2]
-    elif h == "call":
-        s = wrap(t[1], rng) + "(" + ", ".join(t[2:]) + ")"
-    elif h == "lambda":
-        s = "(" + ", ".join(p[0] for p in t[1][1:]) + ") -> " + render(t[2], rng)
-    else:
-        s = render_opaque(t)
-    if rng and rng.chance(1, 12):
+    s = render_any(t, rng, lambda x, _: wrap(x, rng), lambda x: render(x, rng))
+    if rng and rng.chance(1, 12) and not isinstance(t, str):
         s = "(" + s + ")"
     return s
 
 
 def wrap(t, rng):
-    if (isinstance(t, str) or head(t) == "block") and not (rng and rng.chance(1, 10)):
-        return render(t)
+    if (isinstance(t, str) or head(t) in ("block", "tuple")) and not (rng and rng.chance(1, 10)):
+        return render(t, rng)
     return "(" + render(t, rng) + ")"
+
+
+def min_level(t):
+    h = head(t)
+    if isinstance(t, str) or h in (".", "call", "tuple", "block"):
+        return 6
+    if h in ("!", "neg"):
+        return 5
+    if h in OPS and len(t) == 3:
+        return PLEVEL[h]
+    return -1
 
 
 def render_min(t, k=-1):
     """parser-minimal rendering (own precedence climbing: python side), exercising the real parser's
     level structure rather than explicit parentheses; k = -1 is `parse_expression`"""
-    h = head(t)
-    if isinstance(t, str):
-        return t
-    if h in ("!", "neg"):
-        s = ("!" if h == "!" else "-") + render_min(t[1], 6)
-        my = 5
-    elif h in OPS and len(t) == 3:
+    def operand(x, pos):
+        if pos == "unary" or pos == "post":
+            return render_min(x, 6)
+        side, h = pos
         j = PLEVEL[h]
-        left = render_min(t[1], j)
-        if h == "<" and re.search(r"\.\s*[A-Za-z][A-Za-z0-9]*$", left):
-            left = "(" + left + ")"      # `a.b < c` is not a comparison for the parser (C08-F6)
-        s = left + " " + h + " " + render_min(t[2], j + 1)
-        my = j
-    elif h == ".":
-        s, my = render_min(t[1], 6) + "." + t[2], 6
-    elif h == "call":
-        s, my = render_min(t[1], 6) + "(" + ", ".join(t[2:]) + ")", 6
-    elif h == "lambda":
-        s, my = "(" + ", ".join(p[0] for p in t[1][1:]) + ") -> " + render_min(t[2], -1), -1
-    elif h == "block":
-        s, my = render_opaque(t), 6
-    else:
-        s, my = render_opaque(t), -1
-    return s if my >= k else "(" + s + ")"
+        s = render_min(x, j if side == "l" else j + 1)
+        if side == "l" and h == "<" and re.search(r"\.\s*[A-Za-z][A-Za-z0-9]*$", s):
+            s = "(" + s + ")"      # `a.b < c` is not a comparison for the parser (C08-F6)
+        return s
+    s = render_any(t, None, operand, lambda x: render_min(x, -1))
+    return s if min_level(t) >= k else "(" + s + ")"
 
 
 def dump(t):
@@ -348,6 +392,18 @@ def mutate_ops(rng, text, n):
 
 
 # ---------------------------------------------------------------- running
+def norm_tokens(text):
+    """token sequence of a printed expression; the trailing comma the layout engine adds in expanded
+    argument / element lists is dropped (C09 territory)"""
+    toks = TOKRE.findall(text)
+    out = []
+    for i, t in enumerate(toks):
+        if t == "," and i + 1 < len(toks) and toks[i + 1] == ")":
+            continue
+        out.append(t)
+    return " ".join(out)
+
+
 def canon_impl(line):
     """canonicalise the harness answer of an E/S line to `T0;tokens-or-text;T1`"""
     if line == "perr" or ";" not in line:
@@ -356,19 +412,19 @@ def canon_impl(line):
     text = common.unhex(h).decode("utf-8", "replace")
     if t0.startswith("(s "):
         return f"{t0};{text.strip()};{t1}"
-    return f"{t0};{' '.join(TOKRE.findall(text))};{t1}"
+    return f"{t0};{norm_tokens(text)};{t1}"
 
 
 def canon_model(line):
     if ";rt=" not in line:
         return line
-    t0, toks, t1 = line.rsplit(";rt=", 1)[0].split(";")
+    t0, toks, t1 = line.split(";rt=", 1)[0].split(";")
     if t0.startswith("(s "):
         return f"{t0};{toks};{t1}"
-    return f"{t0};{' '.join(TOKRE.findall(toks))};{t1}"   # `-2147483648` is one atom in the model, two tokens of text
+    return f"{t0};{norm_tokens(toks)};{t1}"   # `-2147483648` is one atom in the model, two tokens of text
 
 
-OUTSIDE = ("(call", "(tuple", "(.", "(lambda", "(block", "(if", "(match", "(s ")
+OUTSIDE = ("(call", "(tuple", "(.", "(lambda", "(block", "(if", "(match", "(s ", "(let", "(stmt")
 
 
 class Runner:
@@ -377,7 +433,7 @@ class Runner:
         self.open_ids = {f["id"]: f for f in ctx.open_findings}
         self.reported = set()
         self.stats = {"expr_lines": 0, "expr_roundtrip_ok": 0, "expr_known_failures": 0, "perr_both": 0,
-                      "outside_fragment": 0, "rt_agrees_with_impl": 0, "rt_false_but_impl_ok": 0,
+                      "outside_fragment": 0, "rt_agrees_with_impl": 0, 
                       "module_ok": 0, "module_perr": 0, "module_known_failures": 0, "str_lines": 0}
         self.trees = set()
         self.nontrivial = 0
@@ -464,15 +520,23 @@ class Runner:
                                payload, ("d", l), no_input=(ca == "perr" or ca.split(";")[0] == ca.split(";")[2]))
                 continue
             if ca != "perr":
-                rt = m.endswith("rt=1")
+                rt = ";rt=1" in m
                 ok = ca.split(";")[0] == ca.split(";")[2]
-                if rt and not ok:
-                    payload["broken"] = "theorem roundtrip_expr_partial / roundtrip_str_partial contradicted by the model itself"
-                    self.violation("side condition RT holds but the round trip fails", payload, ("r", l))
+                v2 = m.split(";v2=", 1)[1] if ";v2=" in m else "skip"
+                self.stats["legacy_model_" + ("skipped" if v2 == "skip" else "agrees" if v2 == "ok" else "differs")] = \
+                    self.stats.get("legacy_model_" + ("skipped" if v2 == "skip" else "agrees" if v2 == "ok" else "differs"), 0) + 1
+                if v2 not in ("ok", "skip"):
+                    payload["broken"] = "the legacy model Model/Fmt.lean (used by C09b/C13b) no longer agrees with Model/FmtFull.lean on this line"
+                    payload["legacy_answer"] = v2
+                    self.violation("legacy C08 model differs from the full model", payload, ("v2", l), no_input=True)
+                if ";rg=" in m and ";rg=ok" not in m:
+                    payload["broken"] = "theorem roundtrip_expr_total (parseE (printE e) = some (regroup e)) contradicted by the model's own execution"
+                    self.violation("the model's parse of its printed tokens differs from regroup e", payload, ("g", l), no_input=True)
                 elif rt == ok:
-                    self.stats["rt_agrees_with_impl"] += 1
+                    self.stats["rt_agrees_with_impl"] += 1      # real round trip exact  <->  regroup e = e
                 else:
-                    self.stats["rt_false_but_impl_ok"] += 1
+                    payload["broken"] = "regroup e = e does not coincide with the real round trip"
+                    self.violation("`regroup e = e` and the real formatter's round trip disagree", payload, ("r", l), no_input=ok)
 
     def shrink_expr(self, line, t0):
         """structural shrinking of a failing E input: replace the tree by sub-trees while the
@@ -571,14 +635,15 @@ def subtrees(t):
     """candidate smaller trees: expression children, and the tree with one child shrunk / replaced by an atom"""
     if isinstance(t, str):
         return
-    for i in kids(t):
-        if not isinstance(t[i], str):
-            yield t[i]
-    for i in kids(t):
-        if not isinstance(t[i], str):
-            for x in subtrees(t[i]):
-                yield t[:i] + [x] + t[i + 1:]
-            yield t[:i] + ["a"] + t[i + 1:]
+    for k in get_kids(t):
+        if not isinstance(k, str):
+            yield k
+    for p in kid_paths(t):
+        k = get_path(t, p)
+        if not isinstance(k, str):
+            for x in subtrees(k):
+                yield set_path(t, p, x)
+            yield set_path(t, p, "a")
 
 
 def pair_enumeration():
@@ -594,16 +659,21 @@ def pair_enumeration():
     for u in ("!", "neg"):
         for v in ("!", "neg"):
             ts.append([u, [v, "a"]])
-    # every precedence class as operand of every kind of parent (classes 0/1/2/4-8/10/11/12)
+    # every precedence class as operand / element of every kind of parent (classes 0/1/2/4-8/10/11/12)
     IF = ["if", "c", ["block", ["final", "a"]], ["block", ["final", "b"]]]
-    MATCH = ["match", "x", ["case", ["pvariant", "A", ["ptuple", ["pid", "v"]]], "v"], ["case", ["pvariant", "B", ["ptuple", "_"]], "2"]]
+    MATCH = ["match", "x", ["case", PATS[0], "v"], ["case", PATS[1], "2"]]
     LAM = ["lambda", ["params", ["p"]], ["+", "p", "1"]]
-    subs = ["a", ["block", ["final", "a"]], [".", "a", "foo"], ["call", "a", "b"], ["neg", "a"], ["!", "a"], IF, MATCH, LAM] + \
+    subs = ["a", ["block", ["final", "a"]], ["tuple", "a", "b"], [".", "a", "foo"], [".", "a", "foo", ["targs", "int"]],
+            ["call", "a", "b"], ["call", "a"], ["neg", "a"], ["!", "a"], IF, MATCH, LAM] + \
         [[o, "a", "b"] for o in ("*", "+", "::", "<", "&&", "||")]
     for x in subs:
-        ts += [[".", x, "foo"], ["call", x, "b", "1"], ["call", x], ["neg", x], ["!", x], ["lambda", ["params"], x],
-               ["lambda", ["params", ["p"], ["q"]], x], [".", ["call", [".", x, "foo"], "a"], "bar"]]
-        for o in ("*", "-", "::", "==", "&&", "||"):
+        ts += [[".", x, "foo"], [".", x, "foo", ["targs", ["tid", "Foo"]]], ["call", x, "b", "1"], ["call", x], ["call", "f", x, x],
+               ["tuple", x, "b"], ["tuple", "a", x, x], ["block", ["final", x]], ["neg", x], ["!", x],
+               ["lambda", ["params"], x], ["lambda", ["params", ["p"], ["q"]], x],
+               ["if", x, ["block", ["final", x]], ["block", ["final", x]]],
+               ["match", x, ["case", PATS[0], x], ["case", "_", x]], ["match", "y", ["case", PATS[2], x]],
+               [".", ["call", [".", x, "foo"], "a"], "bar"]]
+        for o in ("*", "-", "::", "==", "<", "&&", "||"):
             ts += [[o, x, "c"], [o, "c", x]]
     ts += [["neg", "5"], ["neg", "-2147483648"], ["-", "1", "-2147483648"], ["-", "a", ["neg", "b"]],
            ["+", ["+", "a", ["+", "b", "c"]], ["*", ["*", "a", "b"], "c"]]]
@@ -704,7 +774,7 @@ def run(ctx):
         "rule": "E/S lines: expression or string-literal source text parsed, printed and re-parsed by the real crates and by the model (all 14x14 operator pairs in both nestings + unary combinations in explicit and parser-minimal rendering; random trees of depth<=5 over 14 binary and 2 unary operators, ids, ints incl. 2147483647 and -2147483648, rendered with explicit, redundant or minimal parentheses; string tokens with every valid escape, multi-byte and comment-like content; malformed token streams); M lines: whole modules (every .sam file of /repo/tests and /repo/std, operator-swap mutants of them, 4 module templates with generated expressions in let / tuple / call / if / match / lambda / method-chain positions) re-parsed after formatting at widths 20..200. non-trivial = distinct original tree with at least two nested operators (E) or a module that parsed and round-tripped (M)",
         "traces_validated_against_impl": st["expr_lines"] + st["str_lines"] if model_ok else 0,
         "operator_histogram": r.hist, "stats": st,
-        "partial_theorems": {"roundtrip_expr_partial": "RT e (decidable: every operand the printer leaves bare stands at a parser level that reads it back)",
+        "partial_theorems": {
                              "roundtrip_expr_noShortcut": "NoShortcut e (no node `x op (y op z)` with op in + * && || printed without parentheses; the only remaining deviation, open finding C08-F5 pinned by a golden test)",
                              "roundtrip_int": "0 <= i < 2^31 or i = -2^31 (all values the parser produces)"},
         "full_strength_theorems": ["roundtrip_str (every lexed string literal)", "paren_insensitive", "parseFuel_stable", "former_witnesses_roundtrip", "member_name_before_lt"],
